@@ -166,3 +166,105 @@ package ct
 //@ ensures [accepts-only-if-the-signature-over-the-rfc6962-input-verifies] result == nil ==> ser.res1 == nil && v.called && v.res == nil
 //@ at ser assert [input-of-this-sth] ser.sth == sth
 //@ at v assert [verifies-the-sth-signature-over-exactly-those-bytes] v.data == ser.res0 && v.sig == sth.TreeHeadSignature && v.s == s
+
+//@ func RawLogEntryFromLeaf
+//@ props C12
+//@ modifies nothing
+//@ site tls.Unmarshal#1 as ul
+//@ site tls.Unmarshal#2 as uc
+//@ site tls.Unmarshal#3 as up
+//@ requires entry != nil
+//@ fresh result0
+//@ ensures [entry-xor-error] (result0 != nil) != (result1 != nil)
+//@ ensures [leaf-must-decode-completely] ul.res1 != nil || len(ul.res0) > 0 ==> result1 != nil && !uc.called && !up.called
+//@ ensures [x509-extra-data-must-decode-completely] uc.called && (uc.res1 != nil || len(uc.res0) > 0) ==> result1 != nil
+//@ ensures [precert-extra-data-must-decode-completely] up.called && (up.res1 != nil || len(up.res0) > 0) ==> result1 != nil
+//@ ensures [only-x509-and-precert-entries] result1 == nil ==> result0.Leaf.TimestampedEntry != nil && (result0.Leaf.TimestampedEntry.EntryType == X509LogEntryType || result0.Leaf.TimestampedEntry.EntryType == PrecertLogEntryType) && (result0.Leaf.TimestampedEntry.EntryType == X509LogEntryType ==> result0.Leaf.TimestampedEntry.X509Entry != nil) && (result0.Leaf.TimestampedEntry.EntryType == PrecertLogEntryType ==> result0.Leaf.TimestampedEntry.PrecertEntry != nil)
+//@ ensures [every-failure-is-a-fatal-error] result1 != nil ==> fatalErr(result1)
+//@ ensures [index-kept] result1 == nil ==> result0.Index == index
+//@ ensures [x509-entry-decodes-extra-data-as-chain] result1 == nil && result0.Leaf.TimestampedEntry.EntryType == X509LogEntryType ==> uc.called && !up.called
+//@ ensures [x509-entry-cert-is-the-leaf-certificate] result1 == nil && result0.Leaf.TimestampedEntry.EntryType == X509LogEntryType ==> result0.Leaf.TimestampedEntry.X509Entry != nil && result0.Cert == *result0.Leaf.TimestampedEntry.X509Entry
+//@ ensures [x509-entry-chain-is-the-decoded-extra-data] result1 == nil && result0.Leaf.TimestampedEntry.EntryType == X509LogEntryType ==> result0.Chain == after(uc, certChain.Entries)
+//@ ensures [precert-entry-decodes-extra-data-as-precert-chain] result1 == nil && result0.Leaf.TimestampedEntry.EntryType == PrecertLogEntryType ==> up.called && !uc.called && result0.Leaf.TimestampedEntry.PrecertEntry != nil
+//@ ensures [precert-entry-cert-and-chain-are-the-decoded-extra-data] result1 == nil && result0.Leaf.TimestampedEntry.EntryType == PrecertLogEntryType ==> result0.Cert == after(up, precertChain.PreCertificate) && result0.Chain == after(up, precertChain.CertificateChain)
+//@ at ul assert [decodes-leaf-input-into-the-entry] ul.b == entry.LeafInput
+//@ at uc assert [decodes-extra-data-as-certificate-chain] uc.b == entry.ExtraData
+//@ at up assert [decodes-extra-data-as-precert-chain] up.b == entry.ExtraData
+
+//@ func (*MerkleTreeLeaf).X509Certificate
+//@ props C12
+//@ modifies nothing
+//@ frame-trusted x509.ParseCertificate writes only memory it allocates
+//@ site x509.ParseCertificate#1 as pc
+//@ ensures [caller-view] (result0 != nil && (result1 == nil || typeof(result1) == x509.NonFatalErrors)) || (result0 == nil && fatalErr(result1))
+//@ requires m != nil && m.TimestampedEntry != nil && (m.TimestampedEntry.EntryType == X509LogEntryType ==> m.TimestampedEntry.X509Entry != nil)
+//@ ensures [wrong-entry-type-is-a-fatal-error] m.TimestampedEntry.EntryType != X509LogEntryType ==> result0 == nil && result1 != nil && typeof(result1) != x509.NonFatalErrors && typeof(result1) != *x509.Errors
+//@ ensures [parses-the-leaf-certificate] m.TimestampedEntry.EntryType == X509LogEntryType ==> pc.called && result0 == pc.res0 && result1 == pc.res1
+//@ at pc assert [the-x509-entry-bytes] pc.asn1Data == m.TimestampedEntry.X509Entry.Data
+
+//@ func (*MerkleTreeLeaf).Precertificate
+//@ props C12
+//@ modifies nothing
+//@ frame-trusted x509.ParseTBSCertificate writes only memory it allocates
+//@ site x509.ParseTBSCertificate#1 as pc
+//@ ensures [caller-view] (result0 != nil && (result1 == nil || typeof(result1) == x509.NonFatalErrors)) || (result0 == nil && fatalErr(result1))
+//@ requires m != nil && m.TimestampedEntry != nil && (m.TimestampedEntry.EntryType == PrecertLogEntryType ==> m.TimestampedEntry.PrecertEntry != nil)
+//@ ensures [wrong-entry-type-is-a-fatal-error] m.TimestampedEntry.EntryType != PrecertLogEntryType ==> result0 == nil && result1 != nil && typeof(result1) != x509.NonFatalErrors && typeof(result1) != *x509.Errors
+//@ ensures [parses-the-tbs-certificate] m.TimestampedEntry.EntryType == PrecertLogEntryType ==> pc.called && result0 == pc.res0 && result1 == pc.res1
+//@ at pc assert [the-precert-entry-tbs-bytes] pc.asn1Data == m.TimestampedEntry.PrecertEntry.TBSCertificate
+
+//@ func (*RawLogEntry).ToLogEntry
+//@ props C12
+//@ modifies nothing
+//@ site X509Certificate#1 as xc
+//@ site Precertificate#1 as pc
+//@ site x509.IsFatal#1 as f1
+//@ site x509.IsFatal#2 as f2
+//@ requires rle != nil && rle.Leaf.TimestampedEntry != nil
+//@ requires rle.Leaf.TimestampedEntry.EntryType == X509LogEntryType ==> rle.Leaf.TimestampedEntry.X509Entry != nil
+//@ requires rle.Leaf.TimestampedEntry.EntryType == PrecertLogEntryType ==> rle.Leaf.TimestampedEntry.PrecertEntry != nil
+//@ fresh result0
+//@ ensures [fatal-parse-error-gives-no-entry] (f1.called && f1.res) || (f2.called && f2.res) ==> result0 == nil && result1 != nil && fatalErr(result1)
+//@ ensures [unknown-type-gives-no-entry] rle.Leaf.TimestampedEntry.EntryType != X509LogEntryType && rle.Leaf.TimestampedEntry.EntryType != PrecertLogEntryType ==> result0 == nil && result1 != nil && fatalErr(result1)
+//@ ensures [no-entry-only-with-a-fatal-error] result0 == nil ==> fatalErr(result1)
+//@ ensures [entry-copies-the-raw-entry] result0 != nil ==> result0.Index == rle.Index && result0.Leaf == rle.Leaf && result0.Chain == rle.Chain
+//@ ensures [x509-entry-carries-the-parsed-leaf-certificate] result0 != nil && rle.Leaf.TimestampedEntry.EntryType == X509LogEntryType ==> result0.X509Cert == xc.res0 && result0.X509Cert != nil && result0.Precert == nil && result1 == xc.res1
+//@ ensures [precert-entry-carries-submitted-cert-key-hash-and-parsed-tbs] result0 != nil && rle.Leaf.TimestampedEntry.EntryType == PrecertLogEntryType ==> result0.Precert != nil && result0.X509Cert == nil && result0.Precert.Submitted == rle.Cert && result0.Precert.IssuerKeyHash == rle.Leaf.TimestampedEntry.PrecertEntry.IssuerKeyHash && result0.Precert.TBSCertificate == pc.res0 && pc.res0 != nil && result1 == pc.res1
+
+//@ func LogEntryFromLeaf
+//@ props C12
+//@ modifies nothing
+//@ site RawLogEntryFromLeaf#1 as raw
+//@ site ToLogEntry#1 as tl
+//@ requires leaf != nil
+//@ ensures [raw-decode-failure-is-fatal-and-gives-no-entry] raw.res1 != nil ==> result0 == nil && result1 == raw.res1 && !tl.called
+//@ ensures [otherwise-the-converted-raw-entry] raw.res1 == nil ==> tl.called && result0 == tl.res0 && result1 == tl.res1
+//@ ensures [caller-view] result0 == nil ==> fatalErr(result1)
+//@ at raw assert [same-index-and-leaf] raw.index == index && raw.entry == leaf
+//@ at tl assert [converts-what-was-decoded] tl.rle == raw.res0
+
+//@ func NewSignatureVerifier
+//@ props C05 C12
+//@ modifies nothing
+//@ frame-trusted log.Printf and the elliptic/rsa accessors write nothing the caller can see
+//@ site BitLen#1 as bl
+//@ site Params#1 as kp
+//@ site Params#2 as pp
+//@ requires validKey(pk)
+//@ fresh result0
+//@ ensures [verifier-xor-error] (result0 != nil) != (result1 != nil)
+//@ ensures [verifier-holds-exactly-the-given-key] result1 == nil ==> result0.PubKey == pk
+//@ ensures [only-rsa-and-ecdsa-keys] typeof(pk) != *rsa.PublicKey && typeof(pk) != *ecdsa.PublicKey ==> result1 != nil
+//@ ensures [rsa-below-2048-bits-refused-unless-opted-in] typeof(pk) == *rsa.PublicKey && bl.res < 2048 && !old(AllowVerificationWithNonCompliantKeys) ==> result1 != nil
+//@ ensures [ecdsa-off-p256-refused-unless-opted-in] typeof(pk) == *ecdsa.PublicKey && *kp.res != *pp.res && !old(AllowVerificationWithNonCompliantKeys) ==> result1 != nil
+//@ at bl assert [size-of-the-modulus-of-the-given-key] bl.x == as(pk, *rsa.PublicKey).N
+//@ at kp assert [curve-of-the-given-key] kp.recv == as(pk, *ecdsa.PublicKey).Curve
+
+//@ func PublicKeyFromPEM
+//@ props C05 C12
+//@ pure
+//@ site pem.Decode#1 as dec
+//@ site ParsePKIXPublicKey#1 as pk
+//@ ensures [no-pem-block-is-an-error] dec.res0 == nil ==> result0 == nil && result3 != nil && !pk.called
+//@ ensures [key-is-the-parsed-block-and-rest-is-what-follows-it] dec.res0 != nil ==> pk.called && result0 == pk.res0 && result3 == pk.res1 && result2 == dec.res1
+//@ ensures [caller-view] result3 == nil ==> validKey(result0)
